@@ -33,6 +33,13 @@ def c02_jobs(tier):
                  J("hsms", "ZZ_C02_tree", depth=3, width=2, menu=2, maxn=1, timeout_s=1500),
                  J("hsms", "ZZ_C02_tree", depth=1, width=3, menu=13, maxn=2, timeout_s=1500)]
     jobs += [J("hsms", "ZZ_C02_incomplete", which=w) for w in range(4)]
+    W = [1, 1, 1, 1, 8, 1, 2, 4, 8, 4, 8, 1, 2, 4]
+    for k in LEAF_KINDS:
+        sizes = [255, 256] if W[k] == 1 else [256]
+        if tier != "quick":
+            sizes += [65535, 65536] if W[k] == 1 else [65536]
+        for b in sizes:
+            jobs.append(J("hsms", "ZZ_C02_boundary", kind=k, n=(b + W[k] - 1) // W[k], fuel=2_000_000_000, timeout_s=3300))
     return jobs
 
 
@@ -69,6 +76,13 @@ def c03_jobs(tier):
                     if tier == "quick" and (n == 2 and nlb == 2 or corr in (5, 6, 7) and (n, nlb) != (1, 1)):
                         continue
                     jobs.append(J("hsms", "ZZ_C03_structured", kind=kind, n=n, nlb=nlb, corr=corr))
+    for kind in (3, 1):
+        for nlb, present in ((2, 0), (2, 256), (2, 257), (3, 0), (3, 256), (3, 300)) + (() if tier == "quick" else ((3, 65536), (2, 65535))):
+            if tier == "quick" and kind == 1 and present not in (256,):
+                continue
+            jobs.append(J("hsms", "ZZ_C03_lenbytes", kind=kind, nlb=nlb, present=present, fuel=2_000_000_000, timeout_s=(250 if tier == "quick" else 3300)))
+    for order in range(4):
+        jobs.append(J("hsms", "ZZ_C03_mixed", order=order, fuel=400_000_000))
     return jobs
 
 
@@ -82,6 +96,8 @@ def c07_jobs(tier):
             for present in ((0, 2) if tier == "quick" else (0, 1, 2, 4)):
                 for kind in ((0, 1, 3, 6, 9) if tier == "quick" else range(14)):
                     jobs.append(J("hsms", "ZZ_C07_declared", depth=d, nlb=nlb, present=present, kind=kind))
+    for fam in range(6):
+        jobs.append(J("hsms", "ZZ_C07_growth", fam=fam, j=(32 if tier == "quick" else 128), scale=(20000 if fam != 3 else 30000), fuel=400_000_000))
     return jobs
 
 
@@ -123,6 +139,8 @@ def c16_jobs(tier):
             jobs.append(J("ast", "ZZ_C16_tree", order=order, depth=1, width=2, maxn=1, kinds=3, timeout_s=3000))
             jobs.append(J("ast", "ZZ_C16_tree", order=order, depth=0, width=3, maxn=2, kinds=7, timeout_s=3000))
             jobs.append(J("ast", "ZZ_C16_tree", order=order, depth=2, width=2, maxn=1, kinds=1, timeout_s=3000))
+        jobs.append(J("ast", "ZZ_C16_shared", order=order))
+    jobs += [J("ast", "ZZ_C16_dupfill", which=w) for w in range(5)]
     return jobs
 
 
@@ -171,8 +189,11 @@ def c05_jobs(tier):
     jobs.append(J("sml", "ZZ_C05_mixed", **T))
     jobs.append(J("sml", "ZZ_C05_bool"))
     for typ in (8, 9):
-        for i in range(12):
+        for i in range(19):
             jobs.append(J("sml", "ZZ_C05_float", typ=typ, i=i))
+    for which in range(3):
+        for lit in range(4):
+            jobs.append(J("sml", "ZZ_C05_floatmix", which=which, lit=lit))
     return jobs
 
 
@@ -180,17 +201,19 @@ def c15_jobs(tier):
     jobs = []
     T = dict(timeout_s=(250 if tier == "quick" else 3300))
     types = [0, 3, 1, 2, 5, 9, 12] if tier == "quick" else list(range(14))
-    ks = [(1, 1)] if tier == "quick" else [(1, 1), (2, 2), (3, 1), (20, 20), (19, 20)]
+    ks = [(1, 1)] if tier == "quick" else [(1, 1), (2, 2), (3, 1), (5, 4)]
     for typ in types:
         for form in range(4):
             for c in ([0, 1, 2] if tier == "quick" else [0, 1, 2, 3, 4]):
                 for ka, kb in ks:
-                    jobs.append(J("sml", "ZZ_C15_literal", typ=typ, form=form, c=c, ka=ka, kb=kb, sp=0, **T))
-            jobs.append(J("sml", "ZZ_C15_literal", typ=typ, form=form, c=1, ka=2, kb=2, sp=1, **T))
+                    jobs.append(J("sml", "ZZ_C15_literal", typ=typ, form=form, c=c, ka=ka, kb=kb, sp=0, nines=0, **T))
+            jobs.append(J("sml", "ZZ_C15_literal", typ=typ, form=form, c=1, ka=2, kb=2, sp=1, nines=0, **T))
+            if typ in (0, 3, 5):
+                jobs.append(J("sml", "ZZ_C15_literal", typ=typ, form=form, c=1, ka=1, kb=1, sp=0, nines=1, **T))
     for form in range(4):
         for c in ([0, 1, 3] if tier == "quick" else [0, 1, 2, 3, 4, 12]):
             for ka, kb in ([(1, 1)] if tier == "quick" else [(1, 1), (2, 2), (1, 3)]):
-                jobs.append(J("sml", "ZZ_C15_asciivar", form=form, c=c, ka=ka, kb=kb, sp=(c % 2), **T))
+                jobs.append(J("sml", "ZZ_C15_asciivar", form=form, c=c, ka=ka, kb=kb, sp=(c % 2), nines=0, **T))
     for c in (0, 1, 2, 5):
         jobs.append(J("sml", "ZZ_C15_direct", c=c))
     return jobs
@@ -213,9 +236,9 @@ def c06_jobs(tier):
         if tier != "quick":
             for pos in range(SKEL_LEN[sk] + 1):
                 jobs.append(J("sml", "ZZ_C06_soup", sk=sk, n=2, pos=pos, **T))
-    hot = [(0, 4), (0, 17), (0, 22), (1, 6), (1, 19), (1, 30), (3, 10), (3, 17), (2, 4), (5, 20)]
+    hot = [(0, 4), (0, 13), (0, 16), (0, 22), (1, 6), (1, 14), (3, 7), (1, 19), (1, 30), (3, 10), (3, 17), (2, 4), (5, 20)]
     if tier == "quick":
-        for sk, pos in hot[:4]:
+        for sk, pos in hot[:7]:
             jobs.append(J("sml", "ZZ_C06_soup", sk=sk, n=2, pos=pos, **T))
     for which in range(10):
         for k in ([1, 3, 10] if tier == "quick" else [1, 2, 3, 5, 8, 10, 12, 19, 20]):
@@ -241,7 +264,7 @@ def c19_jobs(tier):
     return jobs
 
 
-SEQ_TOK = [18, 17, 16, 7, 14, 7]
+SEQ_TOK = [20, 17, 16, 7, 14, 7, 32]
 
 
 def c08_jobs(tier):
@@ -295,7 +318,7 @@ def c04_jobs(tier):
 
 
 def c17_jobs(tier):
-    return [J("sml", "ZZ_C17_noninterference", op=op) for op in range(10)]
+    return [J("sml", "ZZ_C17_noninterference", op=op) for op in range(10)] + [J("sml", "ZZ_C17_results", which=w) for w in range(3)]
 
 
 def c12_jobs(tier):
@@ -327,9 +350,26 @@ def c12_jobs(tier):
     return jobs
 
 
+TYPE_W = [1, 1, 1, 1, 8, 1, 2, 4, 8, 4, 8, 1, 2, 4]
+
+
 def c13_jobs(tier):
     jobs = [J("ast", "ZZ_C13_header", typ=t) for t in range(14)]
     jobs += [J("ast", "ZZ_C13_bytelen", typ=t) for t in range(14)]
+    BIG = dict(fuel=4_000_000_000, timeout_s=3300)
+    for t in range(14):
+        w = TYPE_W[t]
+        sizes = [0, 1, 3, 255 // w, 255 // w + 1]
+        if tier != "quick":
+            sizes += [65535 // w, 65535 // w + 1]
+            if w >= 4:
+                sizes += [16777215 // w, 16777215 // w + 1]  # the real limit for 4- and 8-byte formats
+        for n in sizes:
+            jobs.append(J("ast", "ZZ_C13_factory", typ=t, n=n, **BIG))
+    if tier != "quick":
+        # first size beyond the limit for the 1- and 2-byte formats (the at-limit side would need 16M-element items)
+        for t in (1, 2, 3, 5, 6, 11, 12):
+            jobs.append(J("ast", "ZZ_C13_factory", typ=t, n=16777215 // TYPE_W[t] + 1, **BIG))
     return jobs
 
 
@@ -338,7 +378,7 @@ def smoke_jobs(tier):
 
 
 PROPS = {
-    "C17": dict(jobs=c17_jobs, must_reach=["end"], level="other",
+    "C17": dict(jobs=c17_jobs, must_reach=["end"], level="other", race=True,
                 explanation="Non-interference certificate decided by symbolic execution: for each operation named in the property (print, encode, list, fill incl. ellipsis expansion, producers, both parsers) on symbolic shared objects, the engine's write-set monitor shows on every explored path that the call stores only into memory it allocated itself (no store into any cell reachable from the shared items/messages/arguments or from any package-level variable of the repository; stores under a held sync.Mutex or inside sync.Once.Do are exempt) and that the result is identical under four map iteration orders. Calls that only read shared memory cannot race and cannot influence each other, whatever the schedule. Real schedules are not executed.",
                 level_text="Sufficient-condition certificate (not schedule exploration): symbolic execution with a ghost write-set monitor over all cells reachable from the shared objects and package-level variables, plus map-iteration-order independence of every result.",
                 level_note="The engine is single-threaded: Go scheduler interleavings are not enumerated and the race detector is not run. Standard-library entry points (regexp, fmt, strconv, unicode) are trusted to be goroutine-safe as documented. A change that starts goroutines makes the check INCONCLUSIVE.",
@@ -368,7 +408,7 @@ PROPS = {
     "C15": dict(jobs=c15_jobs, must_reach=["end"],
                 level_text="Bounded model checking: the digits of both bounds of every declaration form are symbolic and run through the real lexer, strconv.Atoi (interpreted from SSA, overflow clamp included) and parser; accept/reject and the size error's text and position are compared with the bounds computed by the harness.",
                 level_note="Trusted: go/ssa, engine, z3.",
-                bounds={"quick": "7 item types x 4 forms x counts 0..2, 1 digit per bound (+ a blank-padded variant with 2 digits)", "thorough": "14 types, counts 0..4, up to 20 digits per bound"},
+                bounds={"quick": "7 item types x 4 forms x counts 0..2, 1 digit per bound (+ a blank-padded variant with 2 digits)", "thorough": "14 types, counts 0..4, up to 5 symbolic digits per bound; bounds of 20 digits (19 concrete nines + 1 symbolic digit) that overflow int"},
                 outside=["declarations preceded by whitespace (position shift is C08)", "counts above 4"]),
     "C05": dict(jobs=c05_jobs, must_reach=["end"],
                 level_text="Bounded model checking: message texts with literal holes whose every digit/character is symbolic are run through the real lexer and parser (regexp, strconv.ParseInt/ParseUint interpreted from their SSA); the denoted value is computed by the harness from the hole bytes and compared with the stored bytes; unrepresentable literals must give an error and no message.",
